@@ -20,9 +20,9 @@ from holopy.scattering.theory import tmatrix as tmmod
 from holopy.scattering.errors import TmatrixFailure
 
 ID = "C10"
-LEAN_MODULES = ["HoloProps.C10"]
-MODEL_MODULES = ["HoloModel.Tmatrix", "HoloModel.ImageFormation"]
-GEN_DEPS = ["Proj", "TmGuards"]
+LEAN_MODULES = ["HoloProps.C10", "HoloProps.C10Gen"]
+MODEL_MODULES = ["HoloModel.Tmatrix", "HoloModel.ImageFormation", "HoloGen.PyTmatrix"]
+GEN_DEPS = ["Proj", "TmGuards", "PyTmatrix"]
 NOT_PROVED = [
     "Mishchenko's T-matrix computation (ampld: T-matrix, Wigner functions) is an input of the model: that a sphere's lab-frame matrix has the structure `sLabSphere` (hypothesis of C10_sphere_limit), that a spheroid with equal semi-axes gives that matrix for every orientation, and the spin / axis-reversal / mirror symmetry of its output are searched against Lorenz-Mie, an independent Rayleigh-dipole formula and metamorphic relations",
     "that no input makes the Fortran terminate or hang: proved only that the angular guard is unreachable from the wrapper and that the source contains no other reachable STOP (list regenerated each run); liveness itself is searched in child processes",
